@@ -110,11 +110,13 @@ def run(ctx):
         return
     quick = ctx.tier == "quick"
     rngs = [random.Random(606), ctx.rng]
-    nbase = (120, 60) if quick else (1200, 1200)
-    for det, (rng, n) in zip((True, False), zip(rngs, nbase)):
+    nbase = (300, 150) if quick else (2000, 2000)
+    sysbase = relgen.systematic_cases(2 if quick else 3, SAFE, seed=66, kinds=["select", "derive", "filter", "sort", "take", "aggregate", "group_agg", "group_take", "join", "window"])
+    ctx.coverage_extra["systematic_base_programs"] = len(sysbase)
+    for det, (rng, n) in zip((True, True, False), [(random.Random(6060), 0)] + list(zip(rngs, nbase))):
         kinds = ["select", "derive", "filter", "sort", "take", "aggregate", "group_agg", "group_take", "join", "append", "derive",
                  "filter", "sort", "take", "window", "window"]
-        cases = [relgen.make_case(rng, kinds=kinds, **SAFE) for _ in range(n)]
+        cases = sysbase if n == 0 else [relgen.make_case(rng, kinds=kinds, **SAFE) for _ in range(n)]
         base = relcheck.run_cases(cases, "sql.sqlite")
         reqs, meta = [], []
         for c, r in zip(cases, base):
